@@ -3,6 +3,7 @@ package rules
 import (
 	"go/constant"
 	"go/token"
+	"strings"
 
 	"golang.org/x/tools/go/ssa"
 
@@ -239,6 +240,15 @@ func opReach(fn *ssa.Function, isOp func(v ssa.Value) bool, k int64) []*ssa.Basi
 		}
 		return r != neg, true
 	}
+	return condReach(fn, decide)
+}
+
+// condReach: the blocks a function can execute when the conditions that `decide` knows have the
+// value it gives them; every other branch is explored both ways.
+func condReach(fn *ssa.Function, decide func(v ssa.Value) (bool, bool)) []*ssa.BasicBlock {
+	if len(fn.Blocks) == 0 {
+		return nil
+	}
 	// paths are enumerated (loops cut at the first revisit on a path) so that a boolean
 	// computed by && / || into a variable, which go/ssa represents as a phi, is known
 	// from the edge the path took
@@ -309,4 +319,69 @@ func opReach(fn *ssa.Function, isOp func(v ssa.Value) bool, k int64) []*ssa.Basi
 	}
 	walk(fn.Blocks[0], nil, map[*ssa.BasicBlock]bool{}, map[*ssa.Phi]ssa.Value{})
 	return out
+}
+
+// nameReach: the blocks a decoder function can execute for the mnemonic `name`: tests of
+// Inst.InstName (==, !=, strings.Contains / HasPrefix / HasSuffix with a constant) are decided,
+// every other branch is explored both ways.
+func nameReach(fn *ssa.Function, name string) []*ssa.BasicBlock {
+	isName := isLoadOfField("InstName")
+	constStr := func(v ssa.Value) (string, bool) {
+		c, ok := v.(*ssa.Const)
+		if !ok || c.Value == nil || c.Value.Kind() != constant.String {
+			return "", false
+		}
+		return constant.StringVal(c.Value), true
+	}
+	decide := func(v ssa.Value) (bool, bool) {
+		neg := false
+		for {
+			if u, ok := v.(*ssa.UnOp); ok && u.Op == token.NOT {
+				v, neg = u.X, !neg
+				continue
+			}
+			break
+		}
+		switch x := v.(type) {
+		case *ssa.BinOp:
+			if x.Op != token.EQL && x.Op != token.NEQ {
+				return false, false
+			}
+			var k string
+			var ok bool
+			switch {
+			case isName(x.X):
+				k, ok = constStr(x.Y)
+			case isName(x.Y):
+				k, ok = constStr(x.X)
+			}
+			if !ok {
+				return false, false
+			}
+			return ((k == name) == (x.Op == token.EQL)) != neg, true
+		case *ssa.Call:
+			cal := x.Call.StaticCallee()
+			if cal == nil || cal.Pkg == nil || cal.Pkg.Pkg.Path() != "strings" || len(x.Call.Args) != 2 || !isName(x.Call.Args[0]) {
+				return false, false
+			}
+			k, ok := constStr(x.Call.Args[1])
+			if !ok {
+				return false, false
+			}
+			var r bool
+			switch cal.Name() {
+			case "Contains":
+				r = strings.Contains(name, k)
+			case "HasPrefix":
+				r = strings.HasPrefix(name, k)
+			case "HasSuffix":
+				r = strings.HasSuffix(name, k)
+			default:
+				return false, false
+			}
+			return r != neg, true
+		}
+		return false, false
+	}
+	return condReach(fn, decide)
 }
